@@ -101,6 +101,11 @@ use metrique_writer::{MetricFlags, MetricValue, Observation, Value, ValueWriter}
 use ordered_float::OrderedFloat;
 use smallvec::SmallVec;
 use std::{borrow::Borrow, marker::PhantomData};
+// verification builds only (`--cfg metrique_verif_loom`): every `std::sync` / `std::thread` /
+// `std::time::Instant` path of this file resolves to scheduler-visible primitives
+#[cfg(metrique_verif_loom)]
+#[allow(unused_imports)]
+use metrique_writer::core::__verif::std_shim as std;
 
 use crate::traits::AggregateValue;
 
@@ -469,6 +474,9 @@ impl<const N: usize> AggregationStrategy for SortAndMerge<N> {
 /// recording from multiple threads.
 pub struct AtomicExponentialAggregationStrategy {
     inner: histogram::AtomicHistogram,
+    // verification builds only: makes record / drain scheduler-visible steps
+    #[cfg(metrique_verif_loom)]
+    shadow: metrique_writer::core::__verif::shadow::Shadow,
 }
 
 impl AtomicExponentialAggregationStrategy {
@@ -476,6 +484,8 @@ impl AtomicExponentialAggregationStrategy {
     pub fn new() -> Self {
         Self {
             inner: histogram::AtomicHistogram::with_config(&default_histogram_config()),
+            #[cfg(metrique_verif_loom)]
+            shadow: Default::default(),
         }
     }
 }
@@ -488,6 +498,8 @@ impl Default for AtomicExponentialAggregationStrategy {
 
 impl SharedAggregationStrategy for AtomicExponentialAggregationStrategy {
     fn record_many(&self, value: f64, count: u64) {
+        #[cfg(metrique_verif_loom)]
+        self.shadow.touch();
         let value = scale_up(value);
         self.inner
             .add(value.min(u64::MAX as f64) as u64, count)
@@ -495,6 +507,8 @@ impl SharedAggregationStrategy for AtomicExponentialAggregationStrategy {
     }
 
     fn drain(&self) -> Vec<Observation> {
+        #[cfg(metrique_verif_loom)]
+        self.shadow.touch();
         self.inner
             .drain()
             .iter()
